@@ -238,6 +238,15 @@ def run(chk):
                        law="terminal status, output and error name equal those of the reference semantics",
                        classify=classify)
             continue
+        # --- the history: every StateEntered / StateExited the engine wrote, and the number of task requests, against
+        # the log of the reference semantics
+        mode, hp = enginerun.compare_history(c["machine"], m, r.history, len(r.requests))
+        chk.dist("history.%s" % mode)
+        if hp:
+            chk.report("impl-differs-from-spec", case, impl={"history": hp, "mode": mode}, model={"fanFail": m.get("fanFail")},
+                       law="the execution history records each state's entry (raw input) and exit (output) as the reference "
+                           "semantics does, and the workers see as many requests", classify=classify)
+            continue
         if m["failState"] and (r.cause != m["cause"]):
             chk.report("impl-differs-from-spec", case, impl={"cause": r.cause}, model={"cause": m["cause"]},
                        law="Fail reports its Error/Cause", classify=classify)
@@ -250,7 +259,10 @@ def run(chk):
                        "Env.maxData both set to a limit drawn around the data sizes of the case (input size + 0..120, or "
                        "60..600 characters), so that refused transitions and over-long replies occur; smalllimit.* in the "
                        "distribution says how many hit the limit, in which state type, and how the state's Retry/Catch "
-                       "handled it" % depth)
+                       "handled it; history: for every compared run the StateEntered (raw input) / StateExited (output) events of "
+                       "the engine's history and the number of task requests are compared with Asl.run's log — as sequences when no "
+                       "fan-out was entered, as multisets when fan-outs ran and none failed, and (a fan-out attempt failed) the "
+                       "engine's exits must be among the model's (history.* in the distribution)" % depth)
 
 
 def replay(chk, path):
